@@ -105,8 +105,9 @@ func runC03(w *W) {
 				try(func() { o = d.S.NextDay(-n).GetLunar().Next(n) })
 				routes[fmt.Sprintf("object of the day %d days away .Next(%d)", -n, n)] = o
 			}
-			{
-				// an object that was asked everything else first (visiting order rotating with the day)
+			if d.J%3 == 0 || l.GetJieQi() != "" {
+				// an object that was asked everything else first (visiting order rotating with the day); on term days and on
+				// every third day
 				o := d.S.GetLunar()
 				askAllLunar(o, d.J)
 				routes["directly built object after every other accessor was called on it"] = o
